@@ -464,6 +464,11 @@ D_REPLAYS = [
     'OOM D 21 0 W 00 0 Z69640041646400696400636c61737300 K - B1T2~T80/N:S336666|U E',
     'OOM D 9 0 W 00 0 Z78 K - B1T5~- CCS6162;B0T7~T0/N:S76;CCXI0.78;E',
     'OOM D 22 0 W 00 0 Z78 K - B1T5~- CCS6162;B0T7~T0/N:S76;CCXT0.0.78;E',
+    # textual public id that is in the table but unknown (SN: one static buffer, then WBXML_ERROR_UNKNOWN_PUBLIC_ID) next to an index
+    # beyond the table (SE: no request) — a 200-byte unterminated table: gen_D once computed the SE index before padding the table
+    'OOM D 0 0 W 00 0 Z6100%s SN64 - B1T25~L0.61 -' % ('70' * 198),
+    'OOM D 8 0 W 00 0 Z6100%s SN64 - B1T25~L0.61 -' % ('70' * 198),
+    'OOM D 0 0 W 00 0 Z6100%s SE300 - B1T25~L0.61 -' % ('70' * 198),
 ]
 
 # Minimised OOM X / OOM F replays of the mutation checks of DESIGN_NOTES/C16.md §11 / §12 (clean on the repaired tree), run first:
@@ -668,7 +673,7 @@ def gen_D(rng, infos):
     elif c < 0.23 and use_tbl:
         pid = 'SN%d' % add(rng.choice(WORDS))
     elif c < 0.25 and tbl:
-        pid = 'SE%d' % (len(tbl) + 4 + rng.randrange(50))
+        pid = 'SE'                                               # index filled in below, once the table is final
     elif 0.25 <= c < 0.28 and not tbl:
         pid = 'SX'
     st = '-'
@@ -683,6 +688,9 @@ def gen_D(rng, infos):
             elif len(tbl) >= 2 and tbl[-2] != 0:
                 del tbl[-1]
         st = 'Z' + bytes(tbl).hex()
+        if pid == 'SE':
+            # beyond the table as parse_strtbl leaves it (up to four NUL bytes appended): WBXML_ERROR_INVALID_STRTBL_INDEX
+            pid = 'SE%d' % (len(tbl) + 4 + rng.randrange(50))
     elif rng.random() < 0.04:
         st = 'E54'
     hdr = '35' if rng.random() < 0.03 else '0'
